@@ -45,7 +45,7 @@ Print Assumptions C04_success_prev_matched.
 Example C04_nontrivial :
   let P := mkP 1 false false false 100 4 (fun _ => []) in
   let m := log_store ∅ [mkE 1 1 0 101; mkE 2 1 0 102; mkE 3 2 0 203; mkE 4 2 0 204] in
-  let s := mkNS 3 0 None m 0 0 [] 0 3 0 0 4 2 0 0 [] 0 [] 0 0 0 false [] in
+  let s := mkNS 3 0 None m 0 0 [] 0 3 0 0 4 2 0 0 [] 0 [] 0 0 0 false [] (0, 0) in
   let a := mkAReq 3 3 3 2 1 [mkE 3 3 0 303; mkE 4 3 0 304; mkE 5 3 0 305] 0 in
   cache_ok s /\ contig (aq_prevIdx a) (aq_entries a) /\
   first_conflict m (aq_entries a) = Some 3 /\
